@@ -689,10 +689,25 @@ pub fn c15(c: &mut Ctx) {
             },
         };
         let x = (x.0.abs(), if x.0 < 0.0 { -x.1 } else { x.1 });
-        let b = match c.rng.below(4) {
+        let b = match c.rng.below(5) {
             0 => (pk!(c.rng, [2.0f64, 10.0, 3.0, 16.0, 0.5, 100.0, 8.0]), 0.0),
+            4 => x,
             _ => tf_in(&mut c.rng, -100, 100),
         };
+        // log(x, b) with x == b, with non-positive or unit arguments: still exactly x.ln() / b.ln()
+        if i % 16 == 7 {
+            for s in [(-2.0, 0.0), (1.0, 0.0), (0.0, 0.0), (-(x.0), -(x.1)), (0.5, 0.0)] {
+                let ins = [hx(s.0), hx(s.1), hx(s.0), hx(s.1)];
+                c.note("log", &ins, true);
+                let lg = guard(|| w(t(s).log(t(s))));
+                let q = guard(|| w(t(s).ln() / t(s).ln()));
+                match (lg, q) {
+                    (Ok(lg), Ok(q)) if beq(lg, q) => {}
+                    (Ok(lg), _) => c.viol("log", "not_ln_over_ln", &ins, &outs(lg), "log(x, x) must be bit-identical to x.ln() / x.ln()".into()),
+                    (Err(m), _) => c.viol("log", "panic", &ins, &[], m),
+                }
+            }
+        }
         let b = (b.0.abs(), if b.0 < 0.0 { -b.1 } else { b.1 });
         let ins = [hx(x.0), hx(x.1), hx(b.0), hx(b.1)];
         c.note("ln", &tf1(x), true);
